@@ -380,3 +380,28 @@ package lossy
 //@   callsite hFilter8iAt: assert dec.fInfo[mbX].FInner && arg4 == limit && arg5 == ilevel && arg6 == hevT
 //@   callsite vFilter8iAt: assert dec.fInfo[mbX].FInner && arg4 == limit && arg5 == ilevel && arg6 == hevT
 //@   callsite filterLoop26At: assert ilevel == int(dec.fInfo[mbX].FILevel) && hevT == int(dec.fInfo[mbX].HevThresh) && limit == int(dec.fInfo[mbX].FLimit)
+//
+// The decoder's inlined DC-only inverse transform (used for blocks whose only
+// non-zero coefficient is the DC one) computes what the full inverse DCT of
+// RFC 6386 section 14.3 gives for such a block, and doTransform picks the
+// transform by the 2-bit code: 3 = full, 2 = AC3 shortcut, 1 = DC only, 0 =
+// nothing. (`nosafety` for doTransform: that a block with code 2 really has
+// only the coefficients 0, 1 and 4 set - transformAC3's precondition - is
+// established by the coefficient parser, which is not under contract.)
+//@ func doTransformDCBlock
+//@   property C04 C05
+//@   requires len(src) >= 16 && len(dst) >= 100 && base(src) != base(dst)
+//@   requires forall k int in 1..16 :: src[k] == 0
+//@   modifies dst[:100]
+//@   ensures forall r int in 0..4, c int in 0..4 :: dst[r*32+c] == old(dsp.SpecIDCTPixel(src, dst, r, c))
+//
+//@ func doTransform
+//@   property C04
+//@   nosafety
+//@   requires len(src) >= 16 && len(dst) >= 100 && base(src) != base(dst)
+//@   modifies *
+//@   abstract Transform, TransformAC3
+//@   callsite Transform: assert bits >> 30 == 3 && arg0 == src && arg1 == dst && !arg2
+//@   callsite TransformAC3: assert bits >> 30 == 2 && arg0 == src && arg1 == dst
+//@   ensures bits >> 30 == 1 && (forall k int in 1..16 :: old(src[k]) == 0) ==> forall r int in 0..4, c int in 0..4 :: dst[r*32+c] == old(dsp.SpecIDCTPixel(src, dst, r, c))
+//@   ensures bits >> 30 == 0 ==> forall k int in 0..100 :: dst[k] == old(dst[k])
